@@ -56,3 +56,42 @@ func TestPort0Bitmap(t *testing.T) {
 		}
 	}
 }
+
+var recOrder = ev.New("C09", "cheap-condition-regression",
+	"fixed cases: a route whose resolver-independent condition (destination port, source port, user, network) is false, a domain target and a resolver that fails (no address / other error / ErrLookup only); "+
+		"oracle: the route does not match, the request is routed by the next route or the default - never the resolver's error. Non-trivial: every case")
+
+// TestCheapConditionFalseNeverResolverError pins the round-3 reading of the statement: the chosen
+// client is that of the first route whose conditions are all satisfied; a route with a false
+// condition that needs no resolver is not such a route, whatever its resolver would answer.
+func TestCheapConditionFalseNeverResolverError(t *testing.T) {
+	for _, failKind := range []int{3, 4, 5} {
+		for _, variant := range []string{"toPorts", "fromPorts", "fromUsers", "network"} {
+			rm := &resolverModel{Name: "r0", ByName: map[string]answer{}, Def: answer{Kind: failKind}}
+			g := &genCase{w: &world{servers: []string{"s0"}, tcp: map[string]bool{"c0": true, "c1": true}, udp: map[string]bool{"c0": true, "c1": true},
+				dsets: map[string]*dsModel{}, psets: map[string]*psModel{}, defTCP: "client:c0", defUDP: "client:c0", resolvers: []*resolverModel{rm}},
+				files: map[string][]byte{}, labels: map[string]bool{}}
+			g.resolvers = []*fakeResolver{{m: rm, other: fmt.Errorf("scripted failure")}}
+			g.cfg.DefaultTCPClientName, g.cfg.DefaultUDPClientName = "c0", "c0"
+			g.cfg.Routes = []router.RouteConfig{{Name: "lan", Client: "c1", ToPrefixes: []netip.Prefix{netip.MustParsePrefix("10.0.0.0/8")}}}
+			rc := &g.cfg.Routes[0]
+			model := routeModel{rc: rc}
+			pm := &portModel{}
+			pm.set[53] = true
+			pm.finish()
+			switch variant {
+			case "toPorts":
+				rc.ToPorts, model.toPort = []uint16{53}, pm
+			case "fromPorts":
+				rc.FromPorts, model.fromPort = []uint16{53}, pm
+			case "fromUsers":
+				rc.FromUsers = []string{"alice"}
+			case "network":
+				rc.Network = "udp"
+			}
+			g.w.routes = []routeModel{model}
+			qs := []request{{UDP: false, User: "bob", Src: netip.MustParseAddrPort("192.0.2.1:40000"), Domain: "a.com", Port: 443}}
+			runCase(t, g, qs, recOrder, func(q *request) bool { return true })
+		}
+	}
+}
